@@ -62,6 +62,13 @@ L = lift.lift("twisted.protocols.basic", names=_NAMES, use_re=True, encode_calls
                          "calcsize": lbytes.l_struct.calcsize})
 
 
+def _P(*a):
+    import sys
+    import crosshair.tracers as tr
+    with tr.NoTracing():
+        print(*[type(x).__name__ if type(x) not in (str,int,bool) else repr(x) for x in a], file=sys.stderr)
+
+
 def _split_cases(n, split):
     for k in range(n + 1):
         if split == k:
@@ -453,11 +460,15 @@ def netsend(data: str, extra: str, split: int) -> bool:
     ev, _p = _run_net(s, k)
     api.obs((wire, ev))
     cover()
-    if wire != str(_menu(M + 1, len(data))) + ":" + data + ",":
+    exp = str(_menu(M + 1, len(data))) + ":" + data + ","
+    _P("wire", wire, "exp", exp, "ne", wire != exp, "eq", wire == exp, "lens", len(wire) == len(exp))
+    if wire != exp:
+        _P("F1")
         return False
     if len(data) > M:
         return ev == [("lose",)]            # longer than MAX_LENGTH: never delivered
     if len(ev) == 0 or ev[0] != ("str", data):
+        _P("F2")
         return False
     return True
 
